@@ -112,6 +112,8 @@ def build(P):
             'TYPE T\nDECLARE e : E\nENDTYPE\nPROCEDURE P2(BYREF x : T)\nTYPE E = (c, d, third)\nx.e <- third\nENDPROCEDURE\nPROCEDURE P1\nTYPE E = (a, b)\nDECLARE l : T\nCALL P2(l)\nOUTPUT l.e\nENDPROCEDURE\nCALL P1',
             'TYPE T\nDECLARE q : PL\nENDTYPE\nPROCEDURE P2(BYREF x : T)\nDECLARE i : INTEGER\nx.q <- ^i\nENDPROCEDURE\nPROCEDURE P1\nTYPE PL = ^INTEGER\nDECLARE l : T\nCALL P2(l)\nENDPROCEDURE\nCALL P1',
             'TYPE Node\nDECLARE val : INTEGER\nDECLARE next : NodePtr\nENDTYPE\nTYPE NodePtr = ^Node\nDECLARE a, b : Node\nDECLARE p : NodePtr\na.val <- 1\nb.val <- 2\na.next <- ^b\np <- a.next\nOUTPUT p^.val\nPROCEDURE Q()\nTYPE L\nDECLARE z : LE\nENDTYPE\nTYPE LE = (one, two)\nDECLARE v : L\nv.z <- two\nOUTPUT v.z\nDECLARE n : Node\nn.val <- 7\nn.next <- ^a\nOUTPUT n.next^.val\nENDPROCEDURE\nCALL Q()',
+            # a BYREF argument whose index expression fails on its first evaluation and succeeds on the second (former crash)
+            'TYPE G = (A, B)\nDECLARE cnt : INTEGER\ncnt <- 0\nFUNCTION F(x : INTEGER) RETURNS INTEGER\n  cnt <- cnt + 1\n  IF cnt = 1 THEN\n    OUTPUT undefinedVar\n  ENDIF\n  RETURN 1\nENDFUNCTION\nPROCEDURE Q(BYREF x : G)\n  OUTPUT "in Q"\n  OUTPUT x.e\nENDPROCEDURE\nPROCEDURE P()\n  TYPE LE = (L1, L2, L3)\n  TYPE LT\n    DECLARE e : LE\n  ENDTYPE\n  DECLARE A : ARRAY[1:3] OF LT\n  A[1].e <- L3\n  CALL Q(A[F(1)])\nENDPROCEDURE\nCALL P()\nOUTPUT "done"',
             # a later argument with a side effect on an earlier BYREF argument's target
             "DECLARE x : INTEGER\nx <- 1\nFUNCTION Bump() RETURNS INTEGER\nx <- x + 10\nRETURN x\nENDFUNCTION\nPROCEDURE P(BYREF a : INTEGER, b : INTEGER)\nOUTPUT a, \" \", b\na <- a + b\nENDPROCEDURE\nCALL P(x, Bump())\nOUTPUT x",
             "TYPE IP = ^INTEGER\nDECLARE x, y : INTEGER\nDECLARE p : IP\nx <- 1\ny <- 2\np <- ^x\nFUNCTION Swing() RETURNS INTEGER\np <- ^y\nRETURN 7\nENDFUNCTION\nPROCEDURE P(BYREF a : INTEGER, b : INTEGER)\na <- a * 100 + b\nENDPROCEDURE\nCALL P(p^, Swing())\nOUTPUT x, \" \", y",
